@@ -8,6 +8,7 @@ from vlib import boot
 from vlib.engine import Outcome
 
 PROPERTY = 'C12'
+LEVEL = 'fault_enumeration'
 RULE = ('A real destination agent (key store: right key / wrong key / no key; accept_after_verify on or off) receives a '
         'bundle built by the independent reference source that carries one or two security blocks (BIB on the payload or on '
         'an extension block, BCB on the payload) each of which is either valid or malformed in exactly one way drawn from: '
